@@ -157,8 +157,11 @@ std::vector<std::string> survey_view(const Survey& s, bool with_coordinates)
     if (l.compare(0, 11, "apriori_m0 ") == 0) {
       // parameters: algorithm, cov-band and iterations are run options echoed by the export, not survey data
       std::istringstream in(l); std::string k, val, out;
-      while (in >> k >> val) if (k != "algorithm" && k != "covband" && k != "maxiter" && k != "gons") out += k + " " + val + " ";
-      v.push_back(out);
+      // (the epoch is not a parameter of the adjustment but a datum of the survey, written with all its digits: a record
+      //  of its own, compared as strictly as an observed value)
+      std::string epoch;
+      while (in >> k >> val) { if (k == "epoch") epoch = val; else if (k != "algorithm" && k != "covband" && k != "maxiter" && k != "gons") out += k + " " + val + " "; }
+      v.push_back(out); v.push_back("network-epoch " + epoch);
     } else if (l.compare(0, 6, "point ") == 0) {
       if (l.find("xy unused z unused") != std::string::npos) continue;      // points outside the adjustment are not exported
       v.push_back(l);
@@ -264,6 +267,7 @@ std::string record_kind(const std::string& why)
   if (rec.compare(0, 8, "cluster ") == 0) return "cluster";
   if (rec.compare(0, 5, "  cov") == 0) return "cov-mat";
   if (rec.compare(0, 11, "apriori_m0 ") == 0) return "parameters";
+  if (rec.compare(0, 14, "network-epoch ") == 0) return "epoch";
   if (rec.compare(0, 12, "description ") == 0) return "description";
   // observation: mangled type name  N8GNU_gama5local9DirectionE -> Direction
   size_t l = rec.find("local"); if (l != std::string::npos) { size_t i = l + 5; while (i < rec.size() && isdigit((unsigned char)rec[i])) i++; size_t e = rec.find("E ", i); if (e != std::string::npos) return "obs-" + rec.substr(i, e - i); }
@@ -350,6 +354,17 @@ bool apply_workload_edit(std::string& d, const Step& st)
     for (auto& T : S.tags) for (auto& a : T.attrs) { std::string n = d.substr(a.nb, a.ne - a.nb); if ((n == "id" || n == "from" || n == "to" || n == "bs" || n == "fs") && d.substr(a.vb, a.ve - a.vb) == id) rs.push_back({a.vb, a.ve}); }
     for (size_t i = rs.size(); i-- > 0;) d.replace(rs[i].b, rs[i].e - rs[i].b, nid);
     return !rs.empty();
+  }
+  if (st.op == "npar") {
+    // numeric attributes of <network> and <parameters> with more significant digits than the archive has (epoch="123",
+    // sigma-apr="10"): the value is set, or replaces the one that is there
+    static const char* NAME[] = {"epoch", "sigma-apr", "conf-pr", "tol-abs"};
+    static const char* VAL[4][3] = {{"2021.70684932", "20210915.0630", "1999.123456789"}, {"10.123456789", "7.0710678118", "1.00000001"},
+                                    {"0.950000001", "0.9544997361", "0.901234567"}, {"1000.00001", "1234.56789012", "999.999999"}};
+    int w = (int)(st.arg(0) % 4); std::vector<int> v = tags_named({w == 0 ? "network" : "parameters"}); if (v.empty()) return false;
+    const xmlscan::Tag& T = S.tags[v[0]]; std::string val = VAL[w][st.arg(1) % 3];
+    for (auto& a : T.attrs) if (d.substr(a.nb, a.ne - a.nb) == NAME[w]) { d.replace(a.vb, a.ve - a.vb, val); return true; }
+    insert_attr(T, std::string(NAME[w]) + "=\"" + val + "\""); return true;
   }
   if (st.op == "prec") {
     // more significant digits than the archive usually has (a value like 141.44 survives any rounding on output)
@@ -579,8 +594,8 @@ Plan RestartEngine::generate(uint64_t seed, uint64_t, const std::string&)
   p.set("extra", extra); p.set("extra_later", later);
   if (g.chance(1, 3)) { p.seti("noxml", 1); if (g.chance(1, 2)) p.set("angular", "--angular 360"); else if (g.chance(1, 4)) p.set("angular", "--angular 400"); }
   int ne = g.chance(1, 3) ? 0 : (int)g.range(1, 4);
-  static const char* W[] = {"dh", "dh", "adh", "ext", "dist", "status", "noise", "prec", "prec", "ids", "cdh", "cdh", "coo", "coo", "tiny"};
-  for (int i = 0; i < ne; i++) { Step s; s.op = W[g.below(15)]; s.a = {(long long)g.below(1000), (long long)g.below(1000), (long long)g.below(1000)}; p.steps.push_back(s); }
+  static const char* W[] = {"dh", "dh", "adh", "ext", "dist", "status", "noise", "prec", "prec", "ids", "cdh", "cdh", "coo", "coo", "tiny", "npar"};
+  for (int i = 0; i < ne; i++) { Step s; s.op = W[g.below(16)]; s.a = {(long long)g.below(1000), (long long)g.below(1000), (long long)g.below(1000)}; p.steps.push_back(s); }
   return p;
 }
 
